@@ -120,3 +120,39 @@ Theorem C04_semicolon_line_is_cut_at_every_semicolon_partial :
 Proof. exact semi_split_join. Qed.
 Goal True. idtac "ASSUMPTIONS-OF C04_semicolon_line_is_cut_at_every_semicolon_partial". Abort.
 Print Assumptions C04_semicolon_line_is_cut_at_every_semicolon_partial.
+
+(* WHATEVER THE CHARACTER CONTEXT.  The pieces may contain character literals and the statement may be
+   broken INSIDE a literal ( 'ab&  /  &cd' ): the joined text is still exactly the concatenation of the
+   pieces, with the exact span.  Required: no '&' inside the pieces, and on each physical line the
+   comment handler finds no comment when entered with the quote state the previous line left (nocom: a
+   decidable fact per line -- this is where a '!' inside a literal is told from a comment).  Any number
+   of lines. *)
+From FV Require Import ReaderJoinQ.
+Theorem C04_continuation_in_any_character_context_partial :
+  forall ign line lab l1 nm p1 q1 ms bn pn src lc fifo,
+    stripped line -> line <> [] -> starts_with ["#"%char] (lstrip line) = false ->
+    extract_label line = (lab, l1) -> extract_construct_name l1 = (nm, p1 ++ ["&"%char]) ->
+    amp_free p1 -> nocom (p1 ++ ["&"%char]) None q1 -> chain_ok q1 ms bn pn ->
+    blanks bn -> amp_free pn -> pn <> [] -> negb (is_blank pn) = true -> stripped (last_line bn pn) ->
+    strip (p1 ++ texts3 ms ++ pn) <> [] ->
+    get_source_item (ReaderJoin.st ign (line :: mids3 ms ++ last_line bn pn :: src) lc fifo)
+    = (Some (RLine (strip (p1 ++ texts3 ms ++ pn)) lab nm (S lc) (S (S lc) + List.length ms)),
+       ReaderJoin.st ign src (S (S lc) + List.length ms) fifo).
+Proof. exact item_of_continued_statement_q. Qed.
+Goal True. idtac "ASSUMPTIONS-OF C04_continuation_in_any_character_context_partial". Abort.
+Print Assumptions C04_continuation_in_any_character_context_partial.
+
+(* hypotheses met by a literal broken twice, with an exclamation mark and a doubled quote inside it *)
+Example C04_example_break_inside_literal :
+  let t := fun x => list_ascii_of_string x in
+  nocom (t "10 msg = 'it''s fixed! and fr&"%string) None (Some "'"%char) /\
+  chain_ok (Some "'"%char) [(t "   "%string, t "ee! "%string, Some "'"%char)] (t " "%string) (t "form' // x"%string) /\
+  fst (get_source_item (ReaderJoin.st true [t "10 msg = 'it''s fixed! and fr&"%string; t "   &ee! &"%string; t " &form' // x"%string] 0 []))
+  = Some (RLine (t "msg = 'it''s fixed! and free! form' // x"%string) (Some 10%N) None 1 3).
+Proof.
+  cbv zeta. split; [intros n; vm_compute; reflexivity|]. split; [|vm_compute; reflexivity].
+  cbn [chain_ok]. split; [vm_compute; reflexivity|]. split; [vm_compute; reflexivity|].
+  split; [intros n; vm_compute; reflexivity|]. eexists. intros n; vm_compute; reflexivity.
+Qed.
+Goal True. idtac "ASSUMPTIONS-OF C04_example_break_inside_literal". Abort.
+Print Assumptions C04_example_break_inside_literal.
